@@ -16,9 +16,8 @@ first angle; afterwards keep the state while `InWidened`, else move to the basin
 Open findings (see `known_findings.d/C20.json`):
 * F13: for a two-basin set and a buffer with basin width + 2b > 360 the code's exit test is wrong
   (`rotamers_refines_hysteresis_counterexample`); the refinement is proved for the complementary range.
-* RaggedArray input with a trajectory shorter than 2 frames fails inside RaggedArray slicing (C05's domain;
-  the model takes the rows as lists, so it is not visible here).
-Fixed in /repo: `disorder.transitions` used to raise when no trajectory had a transition; the source now
+Fixed in /repo: RaggedArray input with a 0- or 1-frame trajectory used to fail inside RaggedArray slicing;
+`disorder.transitions` used to raise when no trajectory had a transition; the source now
 guards that case (generated flag `transitionsAllQuietGuard`), and `transitions2d_spec` holds at full strength.
 -/
 namespace C20
